@@ -7,6 +7,7 @@ pub mod ctx;
 pub mod json;
 pub mod mapsys;
 pub mod payload;
+pub mod subject;
 pub mod survivor;
 
 /// Dispatch a const-generic function over the capacities we instantiate.
